@@ -10,8 +10,8 @@ import (
 
 	"github.com/meshplus/bitxhub-kit/types"
 	"github.com/meshplus/bitxhub-model/pb"
-	"github.com/meshplus/bitxhub/pkg/order/mempool"
 	raftproto "github.com/meshplus/bitxhub/pkg/order/etcdraft/proto"
+	"github.com/meshplus/bitxhub/pkg/order/mempool"
 	"github.com/sirupsen/logrus"
 	"pgregory.net/rapid"
 
